@@ -110,6 +110,9 @@ pub fn gen_default(rng: &mut Rng, t: &ColumnType, profile: Profile) -> Option<De
         if profile == Profile::Engine && (l.contains('\'') || l.is_empty()) {
             return None;
         }
+        if profile == Profile::Loader && rng.chance(1, 6) {
+            return Some(DefaultValue::String(format!("\u{85}\u{a0}'{}'\u{3000}", l)));
+        }
         return Some(match rng.below(3) {
             0 => DefaultValue::String(format!("'{}'", l)),
             1 => DefaultValue::String(l),
@@ -137,7 +140,8 @@ pub fn gen_default(rng: &mut Rng, t: &ColumnType, profile: Profile) -> Option<De
             DefaultValue::String(rng.pick(&["CURRENT_TIMESTAMP", "now()"]).to_string())
         }
         ColumnType::Simple(Text) | ColumnType::Complex(ComplexColumnType::Varchar { .. }) => {
-            match rng.below(4) {
+            match rng.below(if profile == Profile::Loader { 5 } else { 4 }) {
+                4 => DefaultValue::String(rng.pick(&["\u{85}'x'\u{3000}", "\u{a0}", "\u{2003}now()\u{2028}"]).to_string()),
                 0 => DefaultValue::String("".into()),
                 1 => DefaultValue::String("'x'".into()),
                 2 => DefaultValue::String("'hello world'".into()),
